@@ -167,27 +167,42 @@ def line_shape(line):
 
 
 def classify(msg, line, off):
-    """Cause class of a refusal, read off the emitted text: small detectors for the shapes that are listed
-    findings, else the CPython message plus the shape of the offending line (so that a printer regression
-    lands in a signature of its own)."""
+    """Cause class of a refusal, read off the emitted text: detectors for the shapes that are listed findings
+    (each is a way in which the front end accepts something that has no Python form), else the CPython message
+    plus the shape of the offending line - so that a printer regression lands in a signature of its own."""
     l = line.strip()
-    if re.search(r'(\breturn|=)\s+(if|for|while|match|try|with|class|def)\b', l) and not re.search(r'\bif\b.*\belse\b', l):
-        m = re.search(r'(\breturn|=)\s+(if|for|while|match|try|with|class|def)\b', l)
-        return f'statement-used-as-value:{"return" if m.group(1) == "return" else "assign"}-{m.group(2)}'
+    kw = r'(if|match|for|while|try|with|class|def)'
+    # a compound statement in the middle of a line (`x = -if c:`, `f(if True:`, `return + match v:`): statement used as value
+    m = re.search(r'\S.*?\b' + kw + r'\b[^:]*:\s*$', l)
+    if m and not re.match(kw + r'\b', l) and not re.match(r'(el)?if\b|else\b|case\b|except\b', l) and not re.search(r'\bif\b.*\belse\b', l) and 'lambda' not in l:
+        return 'statement-used-as-value:' + re.search(r'\b' + kw + r'\b[^:]*:\s*$', l).group(1)
+    if re.search(r'\(\s*pass\b|=\s*pass\b|\bpass\s+if\b', l):
+        return 'pass-used-as-value'
     if 'leading zeros' in msg:
         return 'leading-zero-literal'
     if 'makes remaining patterns unreachable' in msg:
         return 'irrefutable-case-not-last'
+    if 'null bytes' in msg:
+        return 'null-byte-in-string'
     if 'f-string' in msg:
-        return 'f-string:' + msg.split(':', 2)[-1].strip()[:40]
+        return 'f-string'
+    if l.startswith('case ') or 'patterns may only match' in msg:
+        return 'case-pattern-not-a-pattern'
+    if re.search(r'\b(def|class)\s+(True|False|None)\b|\bas\s+(True|False|None)\b|\bimport\b.*\b(True|False|None)\b|^(True|False|None)\b.*=|[(,]\s*(True|False|None)\s*[:,)=]', l) or 'cannot assign to' in msg:
+        return 'binding-of-True-False-None-or-literal'
+    if re.match(r'except\b.*\bas\s+(?![A-Za-z_]\w*\s*:)', l):
+        return 'except-as-non-identifier'
+    if re.match(r'(from\b.*)?import\b', l):
+        return 'import-of-non-identifier'
+    if 'duplicate argument' in msg or 'follows default argument' in msg or re.search(r'\*\w+.*\*\w+', l):
+        return 'parameter-list-not-pythonic'
+    if l.startswith('=') or re.match(r'^\s*=', line) or re.search(r'^\s*,?\s*=', l):
+        return 'empty-assignment-target'
+    if 'unterminated string' in msg or 'invalid decimal literal' in msg or 'unmatched' in msg or 'EOL while scanning' in msg or 'unexpected character after line continuation' in msg:
+        if l.count('"') >= 2:
+            return 'string-content-breaks-quoting'
     if re.search(r'\[\s*,|,\s*\]|\[\s*\]', l) and ('->' in l or ':' in l):
         return 'empty-type-argument'
-    if 'unterminated string' in msg or 'EOL while scanning' in msg:
-        return 'unterminated-string:' + line_shape(line)
-    if l.startswith('case ') and ('pattern' in msg or 'invalid syntax' in msg or 'expected' in msg):
-        return 'case-pattern:' + msg[:40]
-    if re.match(r'^(True|False|None)\b', l) or 'cannot assign to' in msg:
-        return 'assignment-target:' + msg[:40]
     return f'other:{msg}:{line_shape(line)}'
 
 
